@@ -108,6 +108,11 @@ func (a *Analysis) entryContexts(fn *ssa.Function) []*Ctx {
 	case fn == a.IMV:
 		// the gate lives in CheckMnemonic, which is inlined: same contexts
 		withSizes("N", a.Gate3)
+	case a.Gate1 != nil && a.Gate1.Res != nil && fn == a.Gate1.Res.Fn:
+		// the method the entry point forwards to holds the gate: the same contexts
+		withSizes("L", a.Gate1)
+	case a.Gate2 != nil && a.Gate2.Res != nil && fn == a.Gate2.Res.Fn:
+		withSizes("W", a.Gate2)
 	case fn == a.Str:
 		for _, lc := range lcs {
 			lc := lc
@@ -121,7 +126,11 @@ func (a *Analysis) entryContexts(fn *ssa.Function) []*Ctx {
 			mod := map[*ssa.Function]bool{}
 			for _, body := range []*ssa.Function{a.NME, a.NM, a.CM} {
 				for _, f := range a.API[body] {
-					mod[f] = true
+					// the exported entry points only: an unexported body they forward to, called
+					// by another exported function for its results, is entered
+					if f.Object() != nil && f.Object().Exported() {
+						mod[f] = true
+					}
 				}
 			}
 			if a.IMV != nil {
@@ -152,6 +161,43 @@ func (a *Analysis) entryContexts(fn *ssa.Function) []*Ctx {
 		// a partition of all lengths, on which the comparisons are decided
 		cuts := lenCuts(fn)
 		if len(cuts) == 0 || cuts[len(cuts)-1]-cuts[0] > 64 {
+			if kind, g := a.sharedGate(fn); g != nil {
+				keep := strings.HasSuffix(kind, "!") // the classes' unreachable blocks apply
+				kind = strings.TrimSuffix(kind, "!")
+				withSizes(kind, g)
+				// a small class of rejected sizes ({13,14}) is taken apart: outside the function
+				// that holds the gate nothing marks the blocks its members cannot reach, and
+				// `n%3 != 0` is not decided on an interval
+				var split []*Ctx
+				for _, c := range out {
+					if kind != "N" && !keep {
+						// the function holding that gate is not reached: nothing its classes mark
+						// unreachable is evaluated, and nothing should be skipped on their word
+						c.Infeasible = nil
+					}
+					if c.SizeRange == nil || c.SizeRange[1]-c.SizeRange[0] > 8 || c.SizeRange[1]-c.SizeRange[0] < 1 {
+						split = append(split, c)
+						continue
+					}
+					for v := c.SizeRange[0]; v <= c.SizeRange[1]; v++ {
+						v := v
+						d := *c
+						d.SizeRange = nil
+						d.Name = fmt.Sprintf("%s=%d(rejected),%s", kind, v, c.Name[strings.LastIndex(c.Name, "lang="):])
+						switch kind {
+						case "W":
+							d.WordCount = &v
+						case "L":
+							d.EntLen = &v
+						case "N":
+							d.TokCount = &v
+						}
+						split = append(split, &d)
+					}
+				}
+				out = split
+				break
+			}
 			out = append(out, base...)
 			break
 		}
@@ -172,6 +218,173 @@ func (a *Analysis) entryContexts(fn *ssa.Function) []*Ctx {
 		}
 	}
 	return out
+}
+
+// sharedGate: the gate whose size classes partition the arguments of an exported function that
+// is not one of the entry points.  The classes of a gate (each accepted size, each interval of
+// rejected ones) cover every value of its subject, so evaluating a function once per class
+// covers every argument — provided the context binds the very quantity the function's own code
+// depends on, and the blocks a class marks unreachable (in the function holding the gate) are
+// reached with that quantity as the gate's subject or not at all:
+//   - the number of tokens, when the only tokeniser call the function reaches (other than
+//     through the entry points, which are not entered) is the one Gate3 is about;
+//   - the value of its only integer parameter / the length of its only []byte parameter, when
+//     the function holding that gate is not reached (other than through the entry points).
+func (a *Analysis) sharedGate(fn *ssa.Function) (string, *GateInfo) {
+	stop := map[*ssa.Function]bool{}
+	for _, body := range []*ssa.Function{a.NME, a.NM, a.CM} {
+		for _, f := range a.API[body] {
+			if f.Object() != nil && f.Object().Exported() {
+				stop[f] = true
+			}
+		}
+	}
+	if a.IMV != nil {
+		stop[a.IMV] = true
+	}
+	seen := map[*ssa.Function]bool{}
+	var walk func(f *ssa.Function)
+	walk = func(f *ssa.Function) {
+		if f == nil || seen[f] || len(f.Blocks) == 0 || (stop[f] && f != fn) {
+			return
+		}
+		seen[f] = true
+		for _, c := range callsIn(f) {
+			if g := c.Common().StaticCallee(); g != nil && a.isModuleFunc(g) {
+				walk(g)
+			}
+		}
+		for _, af := range f.AnonFuncs {
+			walk(af)
+		}
+	}
+	walk(fn)
+	toks, own := 0, false
+	for f := range seen {
+		for _, c := range callsIn(f) {
+			cc, isCall := c.(*ssa.Call)
+			if !isCall {
+				continue
+			}
+			isTok := false
+			switch calleeName(c) {
+			case "strings.Split", "strings.Fields", "strings.SplitN", "strings.FieldsFunc", "strings.SplitAfter", "strings.SplitAfterN", "bytes.Split", "bytes.Fields":
+				isTok = true
+			default:
+				if _, isSplit := a.P.byteSplitter(cc.Call.StaticCallee()); isSplit {
+					isTok = true
+				}
+				if a.P.walkCount[cc] {
+					isTok = true
+				}
+			}
+			if isTok {
+				toks++
+				if cc == a.TokCall {
+					own = true
+				}
+			}
+		}
+	}
+	if toks == 1 && own && a.Gate3 != nil && a.Gate3.Res != nil {
+		return "N", a.Gate3
+	}
+	if toks > 0 {
+		return "", nil
+	}
+	nInt, nBytes := 0, 0
+	for _, p := range fn.Params {
+		switch u := p.Type().Underlying().(type) {
+		case *types.Basic:
+			if u.Info()&types.IsInteger != 0 && !a.isLang(p.Type()) {
+				nInt++
+			}
+		case *types.Slice:
+			if b, ok := u.Elem().Underlying().(*types.Basic); ok && b.Kind() == types.Uint8 {
+				nBytes++
+			}
+		}
+	}
+	// handsOwn: the function holding the gate is reached, but only by calls made in fn itself
+	// that pass fn's own parameter p as the gate's subject (`NewMnemonicFromReader(r, n, l)`
+	// calling the body `newMnemonic(r, n, l)` that NewMnemonic forwards to): the classes then
+	// describe that very parameter, unreachable blocks included
+	handsOwn := func(gfn *ssa.Function, gp *ssa.Parameter, isSubj func(*ssa.Parameter) bool) bool {
+		if gp == nil {
+			return false
+		}
+		var own *ssa.Parameter
+		for _, p := range fn.Params {
+			if isSubj(p) {
+				own = p
+			}
+		}
+		idx := -1
+		for i, p := range gfn.Params {
+			if p == gp {
+				idx = i
+			}
+		}
+		if own == nil || idx < 0 {
+			return false
+		}
+		n := 0
+		for f := range seen {
+			for _, c := range callsIn(f) {
+				if c.Common().StaticCallee() != gfn {
+					continue
+				}
+				if f != fn || len(c.Common().Args) != len(gfn.Params) || c.Common().Args[idx] != ssa.Value(own) {
+					return false
+				}
+				n++
+			}
+			if f != fn {
+				for _, b := range f.Blocks {
+					for _, in := range b.Instrs {
+						// the gate function used as a value somewhere: not followed
+						for _, op := range in.Operands(nil) {
+							if *op == ssa.Value(gfn) {
+								if c, ok := in.(ssa.CallInstruction); !ok || c.Common().Value != ssa.Value(gfn) {
+									return false
+								}
+							}
+						}
+					}
+				}
+			}
+		}
+		return n > 0
+	}
+	isInt := func(p *ssa.Parameter) bool {
+		u, ok := p.Type().Underlying().(*types.Basic)
+		return ok && u.Info()&types.IsInteger != 0 && !a.isLang(p.Type())
+	}
+	isBytes := func(p *ssa.Parameter) bool {
+		sl, ok := p.Type().Underlying().(*types.Slice)
+		if !ok {
+			return false
+		}
+		b, ok := sl.Elem().Underlying().(*types.Basic)
+		return ok && b.Kind() == types.Uint8
+	}
+	if nInt == 1 && nBytes == 0 && a.Gate2 != nil && a.Gate2.Res != nil {
+		if !seen[a.Gate2.Res.Fn] {
+			return "W", a.Gate2
+		}
+		if handsOwn(a.Gate2.Res.Fn, a.Gate2Param, isInt) {
+			return "W!", a.Gate2
+		}
+	}
+	if nBytes == 1 && nInt == 0 && a.Gate1 != nil && a.Gate1.Res != nil {
+		if !seen[a.Gate1.Res.Fn] {
+			return "L", a.Gate1
+		}
+		if handsOwn(a.Gate1.Res.Fn, a.Gate1Param, isBytes) {
+			return "L!", a.Gate1
+		}
+	}
+	return "", nil
 }
 
 // lenCuts returns, sorted, the non-negative constants the length of fn's only []byte
